@@ -285,6 +285,8 @@ def _validate(modname, tier, case, body, seed, funcs):
                     val["compared"] += 1
                     tol = case.val_tol if case.val_tol is not None else (1e-4 if ob.deriv else 1e-6)
                     for side, sv, cv in (("lhs", sl, lv[i]), ("rhs", sr, rv[i])):
+                        if sv != sv and cv != cv:
+                            continue  # NaN on both sides (singular solve reproduced by the shadow run)
                         if not (abs(sv - cv) <= tol * (1.0 + abs(cv))):
                             if len(val["mismatches"]) < 5:
                                 val["mismatches"].append({"ob": ob.name, "side": side, "symbolic": sv, "concrete": cv})
@@ -431,7 +433,7 @@ def finish(mod, modname, prop, args, seed, cases, results, t0, extra=()):
     violations = []
     known_hits = {}
     scratch = os.path.realpath(os.environ.get("VERIF_REPO", "/repo")) != "/repo"
-    out_root = os.path.join(tempfile.gettempdir(), "verif_scratch") if scratch else VERIF
+    out_root = os.environ.get("VERIF_SCRATCH", os.path.join(tempfile.gettempdir(), "verif_scratch")) if scratch else VERIF
     rep_dir = os.path.join(out_root, "replays", prop)
     by_case = {}
     for cname, rec in failing:
